@@ -179,7 +179,7 @@ impl<'a> Interp<'a> {
             .make("cbc", "dec", key, &vec![0u8; bs], "inner", None)
             .ok()
             .unwrap();
-        o.blocks(block, None, false).out
+        o.blocks(block, None, false, false).out
     }
 
     fn src_bytes(&self, src: &Value, from: usize, len: usize) -> Option<Vec<u8>> {
@@ -324,6 +324,9 @@ impl<'a> Interp<'a> {
                 let len = if op == "bytes" { n } else { n * unit };
                 let multi = c["multi"].as_bool().unwrap_or(true);
                 let b2b = c["b2b"].as_bool().unwrap_or(false);
+                // which family of entry points: plain (`encrypt_blocks`, `*_b2b`) or `*_inout`; unless the behaviour
+                // says so, alternate deterministically with position and size
+                let inout = c.get("inout").and_then(|v| v.as_bool()).unwrap_or((l.off / unit.max(1) + n) % 2 == 1);
                 let inp = if op == "ks" { Some(vec![0u8; len]) } else { self.src_bytes(&l.src, l.off, len) };
                 let Some(inp) = inp else { self.skipped += 1; return; };
                 let junk = if b2b {
@@ -335,7 +338,7 @@ impl<'a> Interp<'a> {
                 let l = self.objs.get_mut(&o).unwrap();
                 let obj = l.obj.as_mut().unwrap();
                 let r = Self::guarded(|| match op {
-                    "blocks" => obj.blocks(&inp, junk.as_deref(), multi),
+                    "blocks" => obj.blocks(&inp, junk.as_deref(), multi, inout),
                     "bytes" => obj.bytes(&inp, junk.as_deref()),
                     _ => obj.ksblocks(n, multi),
                 });
@@ -363,7 +366,8 @@ impl<'a> Interp<'a> {
                 };
                 let l = self.objs.get_mut(&o).unwrap();
                 let obj = l.obj.take().unwrap();
-                let r = Self::guarded(|| obj.oneshot(&how, &inp, junk.as_deref()));
+                let inout = c.get("inout").and_then(|v| v.as_bool()).unwrap_or(n % 2 == 1);
+                let r = Self::guarded(|| obj.oneshot(&how, &inp, junk.as_deref(), inout));
                 if let Ok(io) = &r {
                     if io.res == Res::Unsupported {
                         self.skipped += 1;
@@ -553,7 +557,7 @@ impl<'a> Interp<'a> {
                 if let Some(mut cl) = obj.clone_box() {
                     let bs = self.facs[l.fac].bs();
                     let z = vec![0u8; bs];
-                    let io = if cl.unit() == 1 && !l.kind.starts_with("cfb8") { cl.bytes(&z, None) } else { cl.blocks(&z, None, false) };
+                    let io = if cl.unit() == 1 && !l.kind.starts_with("cfb8") { cl.bytes(&z, None) } else { cl.blocks(&z, None, false, false) };
                     if io.res == Res::Ok {
                         secrets.push(io.out);
                     }
@@ -564,7 +568,7 @@ impl<'a> Interp<'a> {
                 if l.kind.starts_with("belt") {
                     let bs = self.facs[l.fac].bs();
                     if let Ok(mut e) = self.facs[l.fac].make("cbc", "enc", &l.key, &vec![0u8; bs], "inner", None) {
-                        secrets.push(e.blocks(&l.iv, None, false).out);
+                        secrets.push(e.blocks(&l.iv, None, false, false).out);
                     }
                 }
                 let rev: Vec<Vec<u8>> = secrets.iter().map(|x| x.iter().rev().cloned().collect()).collect();
